@@ -97,6 +97,19 @@ def count_nodes(body: list) -> int:
     return n
 
 
+def count_children(body: list) -> int:
+    n = 0
+    for node in body:
+        op = node[0]
+        if op == "scope":
+            n += count_children(node[3])
+        elif op == "shield":
+            n += count_children(node[1])
+        elif op == "group":
+            n += len(node[1]) + sum(count_children(c) for c in node[1]) + count_children(node[2])
+    return n
+
+
 def depth(body: list) -> int:
     d = 0
     for node in body:
@@ -183,7 +196,7 @@ class MGroup:
 class MTask:
     __slots__ = (
         "name", "gen", "stack", "shield", "foreign", "foreign_at", "state", "wake_at", "outcome", "marks", "group",
-        "last_bare_cp_at", "signal_at", "waiting_on", "finished_at",
+        "last_bare_cp_at", "waiting_on", "finished_at",
     )  # fmt: skip
 
     def __init__(self, name: str) -> None:
@@ -200,7 +213,6 @@ class MTask:
         self.marks: list[tuple[int, int]] = []
         self.group: MGroup | None = None
         self.last_bare_cp_at: int | None = None
-        self.signal_at: int | None = None
         self.waiting_on: MGroup | None = None
 
     def pending(self) -> bool:
@@ -256,9 +268,7 @@ class _Sim:
         res = self.res
         state = target.state
         if cross_task:
-            if target is self.current:
-                target.signal_at = self.now
-            elif state == "new":
+            if state == "new":
                 res.racy = True
                 res.notes.append(f"{target.name}: cancelled before it started")
             elif state == "ready":
@@ -312,11 +322,7 @@ class _Sim:
             yield from self.node(task, node, env)
 
     def checkpoint(self, task: MTask, dur: int) -> Iterator[Any]:
-        res = self.res
         if dur == 0:
-            if task.signal_at == self.now and task.pending():
-                res.racy = True
-                res.notes.append(f"{task.name}: bare checkpoint at the instant a cross-task cancellation was sent to it")
             task.last_bare_cp_at = self.now
         for s in task.stack:
             if s.cancel_called:
@@ -573,6 +579,7 @@ class _Sim:
                 "exited_at": s.exited_at,
                 "cancel_called": s.cancel_called,
                 "caught": s.caught,
+                "deadline": s.deadline,
                 "timeout_raised": s.timeout_raised,
             }
         return res
